@@ -249,8 +249,9 @@ functions, so the slot reserved at construction is never handed out [NILSTATE, P
 red [COLOR]; in every upward loop that keeps a (node, parent) cursor pair the node cursor becomes the old parent, so the
 pair stays a child/parent pair [CLIMB]; a slot taken from the pool enters the tree as a leaf: both child links are set to
 EMPTY_REF and the parent link written on every path of the allocating function, or (release-side discipline) the pool's
-filler node has EMPTY_REF there and every release of a slot is preceded by a reset of that link [FRESH]. NOT decided: that the consistent, symmetric algorithm restores
+filler node has EMPTY_REF there and every release of a slot is preceded by a reset of that link [FRESH]; no branch tests the root's own parent link, which the link discipline keeps
+at EMPTY_REF (a guard mistyped that way disables what it guards, identically in all copies) [ROOTTEST]. NOT decided: that the consistent, symmetric algorithm restores
 the colour invariants (needs a proof or exploration of tree shapes: another technique family); a change made
 identically in all copies and both mirrors is invisible to TWIN; the height bound is a consequence and assumed.""",
      ["the shared algorithm is the textbook red-black repair (not re-verified)"],
-     {'TWIN': 50, 'LINKPAIR': 30, 'NILSTATE': 3, 'COLOR': 3, 'POOL': 3, 'CLIMB': 2, 'FRESH': 6})
+     {'TWIN': 50, 'LINKPAIR': 30, 'NILSTATE': 3, 'COLOR': 3, 'POOL': 3, 'CLIMB': 2, 'FRESH': 6, 'ROOTTEST': 6})
